@@ -95,6 +95,27 @@ func New(ctx context.Context, log *slog.Logger, opts ...Opt) (*Engine, error) {
 		return nil, err
 	}
 
+	if smCfg.Genesis.InitialHeight == 0 {
+		// The chain was initialized by an earlier run, so InitChain was not called.
+		// The state machine still needs to know the initial height and the initial validator set
+		// (for example if it stops again before finishing the first heights),
+		// so rebuild the genesis from the external genesis and the stored initial finalization.
+		_, _, initValSet, initAppStateHash, err := smCfg.FinalizationStore.LoadFinalizationByHeight(
+			ctx, e.genesis.InitialHeight-1,
+		)
+		if err != nil {
+			return nil, fmt.Errorf(
+				"failed to load initial finalization from finalization store: %w", err,
+			)
+		}
+		smCfg.Genesis = tmconsensus.Genesis{
+			ChainID:             e.genesis.ChainID,
+			InitialHeight:       e.genesis.InitialHeight,
+			CurrentAppStateHash: []byte(initAppStateHash),
+			ValidatorSet:        initValSet,
+		}
+	}
+
 	// We will never use the init chain channel again,
 	// so clear it out to make it GC-able.
 	e.initChainCh = nil
